@@ -4,6 +4,11 @@ spec fn strip(c: Cell) -> Cell {
     match c { Cell::WithTag(rc) => rc.value, _ => c }
 }
 
+// the tag map attached to a cell (the empty map if it has none)
+spec fn tags_of(c: Cell) -> Xmap {
+    match c { Cell::WithTag(rc) => rc.tags, _ => xmap_empty() }
+}
+
 // e is the type error reporting exactly `val`
 spec fn type_err_of(e: Xerr, val: Cell) -> bool {
     e is TypeErrorMsg && e->TypeErrorMsg_val == val
